@@ -336,6 +336,10 @@ class ManifestContext:
             self.locationURL = locationURL
         event_generators = EventFactory.create_event_generators(opts)
         for evgen in event_generators:
+            if not evgen.has_valid_schedule():
+                # e.g. a negative timescale: media segments carry no
+                # events for such a schedule either
+                continue
             ev_stream = evgen.create_manifest_context(context=vars(self))
             if evgen.inband:
                 # TODO: allow AdaptationSet for inband events to be
